@@ -22,7 +22,8 @@ Open Scope Z_scope.
 Definition part := (Z * list Z)%type.               (* (oid, canonical contents) *)
 (* shape: 0 scalar, 1 list, 2 dict, 3 set, 4 tuple (tuple object, inner list, scalar),
    5 a TraitListObject, 6 a TraitDictObject (they and the set fire the "<name>_items" event when mutated;
-   1 / 2 are a plain Python list / dict), 9 error *)
+   1 / 2 are a plain Python list / dict), 7 a tuple of two TraitListObjects (tuple object, first list,
+   second list), 9 error *)
 Record value := mkV { v_shape : Z; v_parts : list part }.
 
 (* ---- trait definitions ---- *)
@@ -38,6 +39,7 @@ Inductive kind :=
 | KTuple       (* CALLABLE_DEFAULT_VALUE: Tuple(List(Int), Int): BaseTuple._get_default_value *)
 | KUnion       (* CALLABLE_DEFAULT_VALUE: Union(List(Int), Int): Union._get_default_value *)
 | KEvent       (* "<name>_items" / trait_added event traits (never read) *)
+| KTuple2      (* CALLABLE_DEFAULT_VALUE: Tuple(List(Int, content), List(Int, [scalar])): two container members *)
 | KMethodInt.  (* CALLABLE_DEFAULT_VALUE: Int with a _name_default method returning an int: counted, validated *)
 
 Record tdef := mkT {
@@ -129,6 +131,7 @@ Definition default_value (t : tdef) (next : Z) : value * Z :=
   | KTraitDict => (mkV 6 [(next, t_content t)], next + 1)
   | KTraitSet => (mkV 3 [(next, t_content t)], next + 1)
   | KTuple => (mkV 4 [(next, []); (next + 1, t_content t); (0, [t_scalar t])], next + 2)
+  | KTuple2 => (mkV 7 [(next, []); (next + 1, t_content t); (next + 2, [t_scalar t])], next + 3)
   | KEvent => (mkV 9 [], next)
   end.
 (* kinds whose default is produced by a user callable the harness counts *)
@@ -154,6 +157,7 @@ Definition mutate_value (v : value) (x : Z) : value :=
   | 6, (o, c) :: r => mkV 6 ((o, c ++ [x; x]) :: r)
   | 3, (o, c) :: r => mkV 3 ((o, insert_sorted x c) :: r)              (* s.add(x) *)
   | 4, p :: (o, c) :: r => mkV 4 (p :: (o, c ++ [x]) :: r)             (* t[0].append(x) *)
+  | 7, p :: q :: (o, c) :: r => mkV 7 (p :: q :: (o, c ++ [x]) :: r)   (* t[1].append(x): the second member *)
   | _, _ => v
   end.
 
@@ -273,6 +277,7 @@ Section Step.
   Definition payload_of (v : value) : list Z * Z :=
     match v_shape v, v_parts v with
     | 4, _ :: (_, c) :: (_, [sc]) :: _ => (c, sc)
+    | 7, _ :: (_, c) :: (_, sc :: _) :: _ => (c, sc)      (* (a second list that was mutated is not rebuilt in full) *)
     | _, (_, c) :: _ => (c, 0)
     | _, _ => ([], 0)
     end.
